@@ -3,6 +3,10 @@
 import json
 
 ARMED = {
+ "C19": ("store-object provenance of every write/scan of the copy engines (def-use roots through closures and type assertions); rewrite-before-raw-put must-pass-through; scan-bound provenance; silent-drop path search in the writer goroutines; loop-entry phi check of the dedupe reference; wait-before-success path search",
+         "Static decision of necessary conditions of 'copying a data instance preserves its versioned content': every write of copyData/copyVersions/TransferData is on the destination store and every scan on the source store, CopyInstance passes the stores of the source and of the new instance in that order, and the flattened copy writes under the destination instance at the scanned version (R19.1); a raw key reaches RawPut only after the instance (and version) rewrite of that key (R19.2); the raw scan covers the source instance's whole key range with values, no received pair is dropped except by the filter, the version set or a reported error, tombstones are not singled out, the dedupe reference is reset per key, and the flattened scan covers the whole TKey range and forwards every chunk (R19.3); CopyInstance invokes the new instance's PropertyCopier with the source and saves it, and in-scope types with persisted properties implement it (R19.4); engines return success only after their writer goroutine finished and the end marker is always sent (R19.5). Level 'other': equality of reads at every version for every history, filter semantics and the version-path arithmetic of copyVersions are not decided.",
+         "Trusts go/ssa; store identity by parameter provenance (no pointer analysis); labelsz and tarsupervoxels lack a PropertyCopier but are outside the property's quantifier (reported as notes).",
+         "DESIGN.md §2 C19"),
  "C13": ("edit × denormalisation matrix by must-pass-through on success exits; flow-sensitive event extraction and publisher/subscriber/handler-case agreement; delta ⇒ notify path search; sibling agreement of event handlers; loop-skip provenance",
          "Static decision of necessary conditions of 'annotation indices stay consistent': every element post/delete/move updates the block store, the tag index, the label index and partner relationships and commits the batch on each success exit (R13.1); every label operation publishes an event that annotation subscribes to with a delta type its handler has a case for (R13.2); wherever a per-body delta is recorded the count subscribers are notified (R13.3); the label-event handlers both write and delete per-body keys (R13.4); a move rewrites partner references in every partner block but the source block (R13.5). Level 'other': the contents of the denormalised lists (e.g. which tags are computed as removed) are value-level and not decided.",
          "Trusts go/ssa and VTA; sync event delivery order is not modelled.",
